@@ -154,7 +154,7 @@ func runFree(cid string, in freeIn) *recorder {
 	r := newRecorder(cid)
 	r.add(map[string]any{"ev": "Begin", "begin": true, "mode": "free", "w": in.W, "b": in.B, "in": in})
 	x := &freeRun{r: r, in: in}
-	x.p = newPair(r.tap(false), false, in.Cap, in.W, in.B, in.Bufs, time.Duration(in.Hb)*time.Millisecond)
+	x.p = newPair(r.tap(false, true), false, in.Cap, in.W, in.B, in.Bufs, time.Duration(in.Hb)*time.Millisecond)
 	defer x.p.shutdown()
 
 	actx, acancel := context.WithCancel(context.Background())
